@@ -376,11 +376,13 @@ def rule_role_mapping(ctx):
                             seen.add(y.id)
                             todo.extend(v for v in local_assignments(fn, y.id) if v is not None)
                 a = ast.Tuple(elts=exprs, ctx=ast.Load())
-                for x in ast.walk(a):
-                    if isinstance(x, ast.Attribute) and isinstance(x.ctx, ast.Load):
-                        t = norm.text(x)
-                        if t.startswith("accept.") and not any(t != o and o.startswith(t + ".") for o in [norm.text(y) for y in ast.walk(a) if isinstance(y, ast.Attribute)]):
-                            got.add(t)
+                # attribute chains are read through single-definition locals (`response = accept.response; response.x` is `accept.response.x`)
+                from .common import local_canon, canon_text
+                lc_ = local_canon(fn)
+                texts = [canon_text(fn, y, lc_) or norm.text(y) for y in ast.walk(a) if isinstance(y, ast.Attribute) and isinstance(y.ctx, ast.Load)]
+                for t in texts:
+                    if t.startswith("accept.") and not any(t != o and o.startswith(t + ".") for o in texts):
+                        got.add(t)
             ctx.ob(f"{fname}: {pname} built from {sorted(want)}", got == want, f"argument {i} reads {sorted(got)}", fn.loc(c))
             if isinstance(a, ast.IfExp):
                 ok = norm.atoms(a.test, True) == [("is", norm.text(a.body), ("c", None), False)]
